@@ -101,6 +101,23 @@ class Forward:
             qn = P.d(e.get("callee")).get("qn", "")
             if qn == "std::move":
                 return self.leaves(e["c"][1], depth + 1)
+            # a file-local helper of the wrapper (same source file) that itself only forwards: substitute its result
+            G = P.funcs.get(e.get("callee"))
+            if G is not None and G.body is not None and G.file == F.file and depth < 20:
+                rets = [r for r in G.walk() if r.get("k") == "ReturnStmt" and r.get("c")]
+                if len(rets) == 1:
+                    sub = Forward(P, G)
+                    inner = sub.leaves(rets[0]["c"][0], depth + 1)      # Bad/Unknown propagate
+                    out = []
+                    for l in inner:
+                        if l.key is None:
+                            out.append(l)
+                            continue
+                        i = G.params.index(l.key)
+                        for al in self.leaves(e["c"][1 + i], depth + 1):
+                            form = l.form if al.form == "id" else (al.form if l.form == "id" else "%s.%s" % (al.form, l.form))
+                            out.append(Leaf(al.key, form, al.node))
+                    return out
             raise Bad("argument is computed by %s" % qn, e)
         if k == "UnaryOperator":
             if e["op"] == "*":
